@@ -349,6 +349,11 @@ void ExpressionBuilder::expr_call_end(uint32_t n)
         break;
 
     case PROCESS_SET:
+        if (id.get_symbol() == symbol_t()) {  // process-set typed but not the set itself, e.g. R'(1)
+            handle_error(TypeException{"$Function_expected"});
+            e = make_constant(0);
+            break;
+        }
         if (expr.size() - 1 != id.get_type().size()) {
             handle_error(TypeException{"$Wrong_number_of_arguments"});
         }
